@@ -778,6 +778,17 @@ fn bomb(name: &str) -> Vec<u8> {
             b.extend_from_slice(format!("\nendstream\nendobj\nstartxref\n{x}\n%%EOF\n").as_bytes());
             b
         }
+        // no page tree, and a linearization dictionary (object 100) that announces 2^32 - 1 pages
+        "linearized_n" => {
+            let mut b = b"%PDF-1.4\n".to_vec();
+            let o1 = b.len();
+            b.extend_from_slice(b"1 0 obj\n<< /Type /Catalog >>\nendobj\n");
+            let o100 = b.len();
+            b.extend_from_slice(b"100 0 obj\n<< /Linearized 1 /N 4294967295 >>\nendobj\n");
+            let x = b.len();
+            b.extend_from_slice(format!("xref\n0 2\n0000000000 65535 f \n{o1:010} 00000 n \n100 1\n{o100:010} 00000 n \ntrailer\n<< /Size 101 /Root 1 0 R >>\nstartxref\n{x}\n%%EOF\n").as_bytes());
+            b
+        }
         // CCITT images whose declared geometry is far beyond their (empty) data
         "ccitt_columns" | "ccitt_rows" => {
             let parms = if name == "ccitt_columns" { "/K 0 /Columns 4294967295" } else { "/K -1 /Columns 80000 /Rows 400000" };
@@ -881,6 +892,10 @@ fn thread_cpu_ms() -> u64 {
 
 /// Open and walk: page count, each page, resources, content streams, every stream object decoded, text extraction.
 fn navigate(bytes: Vec<u8>, opts: ParseOptions, numbers: &[u32]) -> &'static str {
+    // the reader's own "all pages" call, on a reader of its own
+    if let Ok(mut all) = PdfReader::new_with_options(Cursor::new(bytes.clone()), opts.clone()) {
+        let _ = all.get_all_pages().map(|v| v.len());
+    }
     let mut reader = match PdfReader::new_with_options(Cursor::new(bytes), opts) {
         Ok(r) => r,
         Err(_) => return "err",
